@@ -1,0 +1,39 @@
+//go:build verif
+
+package compose
+
+import (
+	"context"
+	"errors"
+)
+
+// VerifC12CheckpointScenario drives one checkPointer over one in-memory store the way a
+// process with several runs does: an earlier checkpoint is written under the id, then cp under
+// the same id, then another checkpoint under another id; the id is read back. first and other
+// are checkpoints with nothing but a state (nil and "other").
+func VerifC12CheckpointScenario(cp any) (out any, bytes int, setErr error, getErr error) {
+	st := &verifC12Store{m: map[string][]byte{}}
+	c := newCheckPointer(nil, nil, st)
+	ctx := context.Background()
+	if err := c.set(ctx, "a", &checkpoint{}); err != nil {
+		return nil, 0, nil, errors.New("scenario: writing the earlier checkpoint failed: " + err.Error())
+	}
+	if setErr = c.set(ctx, "a", cp.(*checkpoint)); setErr != nil {
+		return nil, 0, setErr, nil
+	}
+	bytes = len(st.m["a"])
+	if err := c.set(ctx, "b", &checkpoint{State: "other"}); err != nil {
+		return nil, bytes, nil, errors.New("scenario: writing the other checkpoint failed: " + err.Error())
+	}
+	got, existed, err := c.get(ctx, "a")
+	if err != nil {
+		return nil, bytes, nil, err
+	}
+	if !existed {
+		return nil, bytes, nil, errors.New("checkpoint not found after set")
+	}
+	if _, existed, err = c.get(ctx, "missing"); existed || err != nil {
+		return nil, bytes, nil, errors.New("scenario: an id that was never written is reported as existing")
+	}
+	return got, bytes, nil, nil
+}
